@@ -190,6 +190,36 @@ def driver_run(lines):
     return outs
 
 
+# --------------------------------------------------------------------------- per-op watchdog
+
+
+class _OpTimeout(BaseException):
+    pass
+
+
+def run_op(plugin, line):
+    """one operation on the real code; a hang of the code under test (default: 120 s for an operation that
+    takes milliseconds) becomes the outcome 'hang', which no model output equals"""
+    import signal
+
+    limit = int(getattr(plugin, "OP_TIMEOUT", 120))
+    if limit <= 0:
+        return plugin.impl(line)
+
+    def handler(signum, frame):
+        raise _OpTimeout()
+
+    old = signal.signal(signal.SIGALRM, handler)
+    signal.alarm(limit)
+    try:
+        return plugin.impl(line)
+    except _OpTimeout:
+        return "hang"
+    finally:
+        signal.alarm(0)
+        signal.signal(signal.SIGALRM, old)
+
+
 # --------------------------------------------------------------------------- findings
 
 
@@ -301,7 +331,7 @@ def check(prop, tier, seed, replay=None):
             continue
         seen.add(l)
         try:
-            o = plugin.impl(l)
+            o = run_op(plugin, l)
         except Exception as exc:  # the adapter itself must not raise: infra
             raise Infra("adapter raised on %r: %r\n%s" % (l, exc, traceback.format_exc()))
         lines.append(l)
